@@ -586,9 +586,24 @@ func c16Locks(r *core.Run, p *core.Program) {
 			if !ok || an.CallName(c) != "(*os.File).Seek" {
 				return false
 			}
-			return an.Atoms(c.Common().Args[1])["call:(*os.File).Seek#0"]
+			// the remembered absolute position, applied as an absolute position (whence 0)
+			wh, _ := an.ConstOf(c.Common().Args[2])
+			return an.Atoms(c.Common().Args[1])["call:(*os.File).Seek#0"] && wh != nil && wh.Sign() == 0
 		}},
 	})
+	// and the position remembered is the current one: Seek(0, 1)
+	okRem := false
+	if sf != nil {
+		for _, c := range an.CallsTo(sf, false, "(*os.File).Seek") {
+			a := c.Common().Args
+			off, _ := an.ConstOf(a[1])
+			wh, _ := an.ConstOf(a[2])
+			if off != nil && off.Sign() == 0 && wh != nil && wh.Int64() == 1 {
+				okRem = true
+			}
+		}
+	}
+	r.Check(okRem, rule, "flag-update/remembers-current-position", "-", "the position remembered is Seek(0, current)", "setBlockFlag does not remember the current append position with Seek(0, SEEK_CUR)")
 }
 
 func c16Flags(r *core.Run, p *core.Program) {
